@@ -37,8 +37,10 @@ RULE = {
 }
 ASSUMPTIONS = [
     '"NaN payloads excepted": for a NaN input any NaN pattern / any float NaN is accepted as output',
-    'conversions are checked only on values exactly representable in the target format (the statement says "every '
-    'representable value"); narrowing of non-representable values (rounding mode) is outside C12',
+    'FPNum.convert to a narrower format is checked only on values exactly representable there (the statement says '
+    '"every representable value"); sp_to_ieee754 / sp_to_ieee754_parts, which take a Python number (a double), are '
+    'also checked on doubles that are not singles against the platform encoding struct.pack("<f") (section "narrow"); '
+    'doubles beyond the largest single are not constrained',
     'FPNum results are read through their components (s, e, m, p) as the rational s * 2^e * m / p, and additionally '
     'through to_float() / convert() when the exact result is representable; the sign of a zero result is not compared',
     'FPNum.compare of +0 with -0: both 0 (rational order) and +1/-1 (sign order) are accepted; infinities and NaN are '
@@ -52,8 +54,8 @@ ASSUMPTIONS = [
     'reference code in mc/refmodels/fp.py and fxp.py, struct and fractions.Fraction are trusted',
 ]
 BOUNDS = {
-    'quick': 'hp 2^16; sp 2x256x64; dp 2x2048x64; c2 widths 1..10; FPNum 300^2 pairs; FixedPoint widths <= 5',
-    'thorough': 'hp 2^16; sp 2x256x1024; dp 2x2048x1024; c2 widths 1..10; FPNum 600^2 pairs; FixedPoint widths <= 7',
+    'quick': 'hp 2^16; sp 2x256x64; dp 2x2048x64; narrowing double->single 2x255x(64+)x12 doubles around rounding boundaries; c2 widths 1..10; FPNum 300^2 pairs; FixedPoint widths <= 5',
+    'thorough': 'hp 2^16; sp 2x256x1024; dp 2x2048x1024; narrowing double->single as in quick; c2 widths 1..10; FPNum 600^2 pairs; FixedPoint widths <= 7',
 }
 
 H = FloatingPointHelper
@@ -565,6 +567,7 @@ def shards(tier):
             out.append({'section': 'dp', 'sign': s, 'elo': lo, 'ehi': lo + step, 'k': k})
     out += [{'section': 'c2', 'w': w} for w in range(1, 11)]
     out += [{'section': 'sequence'}]
+    out += [{'section': 'narrow', 'sign': sg, 'elo': lo, 'ehi': lo + 64} for sg in (0, 1) for lo in range(0, 256, 64)]
     # special widths / wide formats with boundary values only
     out += [{'section': 'c2', 'w': w, 'corner': 1} for w in ((15, 16, 17, 31, 32, 33, 63, 64, 65, 127, 128) if T else (16, 31, 32, 33, 63, 64, 65))]
     out += [{'section': 'fixed', 'fmt': list(f), 'corner': 1} for f in
@@ -622,10 +625,78 @@ def _run_sequences(d):
     return acc.result()
 
 
+def narrow_checks(bits):
+    """A double (given by its bit pattern) handed to the single-precision encoders: Python numbers are doubles, and the
+    platform's encoding of a double as a single is struct.pack('<f') (round to nearest, ties to even)."""
+    import struct
+    v = struct.unpack('<d', struct.pack('<Q', bits))[0]
+    try:
+        exp = struct.unpack('<I', struct.pack('<f', v))[0]
+    except OverflowError:
+        return None, ()                      # beyond the largest single: not constrained
+    out = []
+    ok, got = _call(H.sp_to_ieee754, v)
+    if not ok or got != exp:
+        out.append(('sp_to_ieee754(double)', {'input_double_bits': hex(bits), 'value': repr(v),
+                                              'got': hex(got) if isinstance(got, int) else got, 'expected': hex(exp)}))
+    ok, parts = _call(H.sp_to_ieee754_parts, v)
+    pk = None
+    if ok and isinstance(parts, tuple) and len(parts) == 3:
+        try:
+            pk = (parts[0] << 31) + (parts[1] << 23) + parts[2]     # a mantissa carry may sit in bit 23: same number
+        except TypeError:
+            pk = None
+    if pk != exp:
+        out.append(('sp_to_ieee754_parts(double)', {'input_double_bits': hex(bits), 'value': repr(v), 'got': repr(parts),
+                                                    'expected': 'parts of ' + hex(exp)}))
+    return out, (got if ok else 'exc',)
+
+
+def _narrow_patterns(sign, elo, ehi):
+    """around every single-precision rounding boundary of the exponent range: for each single (exponent field e, mantissa
+    from the 64-pattern alphabet) the doubles x, x + ulp/2 (the tie), x + ulp/4, x + 3ulp/4 and the doubles adjacent to those"""
+    import struct
+    ms = fp.mantissa_patterns(23, 3)
+    for e in range(elo, ehi):
+        if e == 255:
+            continue
+        for m in ms:
+            x = fp.bits_to_float(fp.join(0, e, m, 'sp'), 'sp')
+            nx = fp.bits_to_float(fp.join(0, e, m, 'sp') + 1, 'sp')
+            if math.isinf(nx):
+                nx = 2.0 ** 128
+            for num in (0, 1, 2, 3):
+                d = x + (nx - x) * num / 4          # exact in double
+                for c in (math.nextafter(d, 0.0), d, math.nextafter(d, math.inf)):
+                    b = struct.unpack('<Q', struct.pack('<d', c))[0]
+                    yield b | (sign << 63)
+
+
+def _run_narrow(desc):
+    acc = Acc('narrow', desc)
+    for b in _narrow_patterns(desc['sign'], desc['elo'], desc['ehi']):
+        fails, obs = narrow_checks(b)
+        if fails is None:
+            acc.skipped += 1
+            continue
+        acc.evals += 1
+        acc.nontriv += 1 if b & ~(1 << 63) else 0
+        acc.outcomes.add(obs)
+        if acc.sample is None and acc.evals == 5:
+            acc.sample = {'section': 'narrow', 'double_bits': hex(b), 'observed': [hex(o) if isinstance(o, int) else o for o in obs]}
+        for check, detail in fails:
+            e = (b >> 52) & 0x7ff
+            k = 'to_subnormal' if e < 1023 - 126 else 'to_normal'
+            acc.fail(check, k, {'section': 'narrow', 'bits': b}, detail)
+    return acc.result()
+
+
 def run_shard(d):
     sec = d['section']
     if sec == 'sequence':
         return _run_sequences(d)
+    if sec == 'narrow':
+        return _run_narrow(d)
     if sec == 'hp':
         return _run_patterns(d, 'hp', range(d['slice'] << 12, (d['slice'] + 1) << 12))
     if sec in ('sp', 'dp'):
@@ -652,6 +723,8 @@ def replay(v):
         fails, obs = pattern_checks(case['fmt'], case['bits'])
     elif sec == 'c2':
         fails, obs = c2_checks(case['w'], case['v'])
+    elif sec == 'narrow':
+        fails, obs = narrow_checks(case['bits'])
     elif sec == 'arith':
         fails, obs = arith_checks(tuple(case['a']), tuple(case['b']))
     elif sec == 'fixed':
